@@ -122,7 +122,7 @@ func c11RunS1Scenario(s c11Scenario, slack time.Duration) (o c11Outcome) {
 			_ = p.conn.Close()
 		}
 		pmu.Unlock()
-		ln.wg.Wait()
+		ln.waitPeers()
 	}()
 	lastOK := s.Fails + 1
 	ln.plan = func(n int) (bool, func(net.Conn)) {
